@@ -91,7 +91,7 @@ Proof. exact: top_coeff. Qed.
 
 End C05.
 
-Theorem C05_control_flow_of_the_source : gen_divmod_facts = nseq 10 true.
+Theorem C05_control_flow_of_the_source : gen_divmod_facts = nseq 11 true.
 Proof. exact: bridge_divmod_facts. Qed.
 
 (* non-vacuity and the formerly looping input: (q0^3 + q0 q1 + 1) / (q0 + q1) = q0 rem q0^3 - q0^2 + 1 *)
